@@ -16,6 +16,8 @@ def main():
     ap.add_argument("--tier", default=os.environ.get("VERIF_TIER", "quick"), choices=["quick", "thorough"])
     ap.add_argument("--replay", default=None)
     a = ap.parse_args()
+    if a.replay:
+        a.replay = os.path.abspath(a.replay)
     pid = a.pid.upper()
     seed = int(os.environ.get("VERIF_SEED", "0") or 0)
     os.environ.setdefault("PYTHONHASHSEED", "0")
